@@ -3,11 +3,11 @@ package core
 // Ev is one record of the run history. Fields are numeric (plus one optional
 // string) so that a record can be stored with plain stores from any task.
 type Ev struct {
-	K    uint16 // kind, engine-defined
-	Task int16  // recording task (-1 = scheduler / driver)
-	Step int32  // scheduler step during which it was recorded
+	K          uint16 // kind, engine-defined
+	Task       int16  // recording task (-1 = scheduler / driver)
+	Step       int32  // scheduler step during which it was recorded
 	A, B, C, D int64
-	S    string
+	S          string
 }
 
 // Hist is the global, totally ordered history of one run. Exactly one task
